@@ -129,6 +129,61 @@ harnesses! {
         }
         reach!(n == 4, "ok");
     }
+    fn c08_q_display_dna_k4 [8] {
+        // displays with the same symbols (Display -> String)
+        let v = any_usize();
+        assume(v < 256);
+        let k = kmer::<Dna, 4>(v);
+        let t = k.to_string();
+        let bytes = t.as_bytes();
+        assert!(bytes.len() == 4, "C08.display.one_char_per_symbol");
+        let i = any_usize();
+        assume(i < 4);
+        assert!(bytes[i] == oracle::DNA.to_char[isym(v as u128, 2, i) as usize], "C08.display.char_i_is_symbol_i");
+        reach!("end");
+        core::mem::forget(t);
+    }
+    fn c08_q_display_amino_k3_u128 [8] {
+        let v = any_u128();
+        assume(v < (1 << 18));
+        let k = kmer128::<Amino, 3>(v);
+        let t = k.to_string();
+        let bytes = t.as_bytes();
+        assert!(bytes.len() == 3, "C08.display.one_char_per_symbol");
+        let i = any_usize();
+        assume(i < 3);
+        let code = oracle::AMINO.from_bits[isym(v, 6, i) as usize] as usize;
+        assert!(bytes[i] == oracle::AMINO.to_char[code], "C08.display.char_i_is_symbol_i");
+        reach!("end");
+        core::mem::forget(t);
+    }
+    fn c08_q_from_str_dna_k2 [6] {
+        // Kmer::from_str: right length and valid text -> those symbols; otherwise an error, never a padded/truncated k-mer
+        let b = any_u8();
+        assume(b < 0x80);
+        let buf = [b'G', b];
+        let txt: &str = unsafe { core::str::from_utf8_unchecked(&buf) };
+        let r = Kmer::<Dna, 2>::from_str(txt);
+        let code = oracle::DNA.from_char[b as usize];
+        reach!(r.is_ok(), "ok");
+        match r {
+            Ok(k) => {
+                assert!(code != oracle::NONE, "C08.from_str.accepted_invalid_text");
+                assert!(k.bs == 2 | ((code as usize) << 2), "C08.from_str.symbols");
+            }
+            Err(e) => {
+                assert!(code == oracle::NONE, "C08.from_str.refused_valid_text");
+                assert!(e == ParseBioError::UnrecognisedBase(b), "C08.from_str.error");
+            }
+        }
+    }
+    fn c08_q_from_str_wrong_length [6] {
+        let r1 = Kmer::<Dna, 3>::from_str("AC");
+        assert!(r1 == Err(ParseBioError::MismatchedLength(3, 2)), "C08.from_str.short_text_must_be_error");
+        let r2 = Kmer::<Dna, 1>::from_str("AC");
+        assert!(r2 == Err(ParseBioError::MismatchedLength(1, 2)), "C08.from_str.long_text_must_be_error");
+        reach!("end");
+    }
     fn c08_q_kmer_macro [4] {
         // kmer! literal: concrete programs, symbols per the documented layout
         let k = kmer!("ACGT");
